@@ -142,8 +142,9 @@ def make_constraint(cspec):
 
     def cons(X):
         c = violation(cspec, X)
-        if ret == "bool":
-            return c > 0
-        return c
+        if ret.startswith("bool"):
+            c = c > 0
+        # "..._col": an (N, 1) column, the shape the validation message of BADS asks for ("returns a column vector")
+        return c.reshape(-1, 1) if ret.endswith("_col") else c
 
     return cons
